@@ -33,4 +33,14 @@ CLAIMS = {
                 "unreachable from send_msg's rejection handler and nothing sends on a data interface bypassing send_msg.",
         "note": TB + "Fields are assumed to hold ints or None (the property's quantifier). Validity of burst *contents* is not constrained by the statement.",
     },
+    "C12": {
+        "technique": "who-may-write scans, guard-literal analysis, complete boolean decision tables of the clock-link / start-stop / POWERON / ready branches, linear normal forms of port expressions",
+        "text": "Decides for all configurations: `running` is written only by the constructor (False) and power_event_handler "
+                "(= poweron) for [self + children] iff managing parent else [self]; power-off clears queue and hopping of each; the "
+                "clock-link and generator start/stop actions equal the specified decision table over all 16 truth assignments, link "
+                "update first; POWERON succeeds iff not running and ready (ready = tuned or hopping), POWEROFF always; only parse_cmd "
+                "issues power events; interface ports are base+2*idx+{102,2}/{101,1} and base+{100,0} in UDPLink's (remote, bind) "
+                "order; children get no clock and are linked to their parent; MS does not manage children.",
+        "note": TB + "Not decided: the iff between `running` and the whole command history as such (follows from the single-writer rule and the decision tables by induction, argued not checked); trxcon's socket plan is cross-checked where cfront is available.",
+    },
 }
